@@ -12,16 +12,18 @@ Inductive case :=
 (* one scripted connection through the real ServeTCP / websocket relay.
    [stream]/[segs]: the client's bytes and their segmentation; [fin]: 0 = the client's EOF
    comes in a Read of its own, k = the Read returning its last bytes also returns error k
-   (1 = io.EOF, 9 = another error); [cwait]: the client waits
+   (1 = io.EOF, 9 = another error); [cw_in]: the client connection handed to the proxy has a
+   CloseWrite method; [o_ended]: the tunnel returned by itself before the harness stopped it; [o_eof]: the proxy
+   closed the write side of the client connection (the client saw EOF); [cwait]: the client waits
    for the whole reply before it ends; [ce]: how it ends; [ut]/[reply]/[ue]: when the
    upstream sends its output and whether it closes afterwards; [rseg1]: the upstream
    pauses after that many bytes of its output; [whead]: length of the websocket
    handshake head inside [reply]; observed: [conn] an upstream connection was made,
    [o_up]/[o_cl] the bytes that arrived at the upstream / at the client. *)
 | CTunnel (k : kind) (pp is4 : bool) (caddr saddr cport sport : str)
-          (stream : str) (segs : list N) (fin : N) (cwait : bool) (ce : cend) (ut : utrig)
+          (stream : str) (segs : list N) (fin : N) (cw_in cwait : bool) (ce : cend) (ut : utrig)
           (reply : str) (rseg1 whead : N) (ue : uend)
-          (conn : bool) (o_up o_cl : str)
+          (conn : bool) (o_up o_cl : str) (o_ended o_eof : bool)
 (* "the client finishes first while the proxy still holds bytes for a slow upstream": the
    client sends [head] (segmented by [hsegs]; the ClientHello on tcp+sni, empty otherwise) and
    then [n] more bytes (several MiB, in segments of their own), closes; the upstream reads
@@ -56,17 +58,19 @@ Definition res_eqb (a b : str * N * N) : bool :=
 
 Definition check_case (c : case) : N :=
   match c with
-  | CTunnel k pp is4 caddr saddr cport sport stream segs fin cwait ce ut reply rseg1 whead ue conn o_up o_cl =>
+  | CTunnel k pp is4 caddr saddr cport sport stream segs fin cw_in cwait ce ut reply rseg1 whead ue conn o_up o_cl o_ended o_eof =>
       let line := proxy_line is4 caddr saddr cport sport in
       let ss := split_segs stream segs in
-      let spec := spec_b k pp line stream cwait ce ut reply ue o_up o_cl in
-      let region :=
-        if region_half_close cwait ce then Some 2
-        else None in
+      let spec := spec_b k pp line stream fin cw_in cwait ce ut reply ue o_up o_cl o_ended o_eof in
+      let region : option N := None in
       let agrees e := Bool.eqb conn (e_conn e)
                       && within o_up (e_up e) (e_up_lo e) (nlen' (e_up e))
-                      && within o_cl (e_cl e) (e_cl_lo e) (e_cl_hi e) in
-      match scenario_expect k pp line ss fin cwait ce ut reply rseg1 whead ue with
+                      && within o_cl (e_cl e) (e_cl_lo e) (e_cl_hi e)
+                      && match e_ends e with Some b => Bool.eqb o_ended b | None => true end
+                      && match e_cl_eof e with Some b => Bool.eqb o_eof b | None => true end in
+      (* tcp paths: the handler sees the tcp.Server wrapper around the scripted connection *)
+      let cw_in := match k with KWs => cw_in | _ => wrapper_cw cw_in end in
+      match scenario_expect k pp line ss fin cw_in cwait ce ut reply rseg1 whead ue with
       | Ok e =>
           verdict (agrees e) spec region (e_conn e && (0 <? nlen' (e_up e)))
       | _ => verdict false spec region true      (* the code neither panics nor runs out of fuel here *)
@@ -80,7 +84,7 @@ Definition check_case (c : case) : N :=
       let sup := spec_upstream k pp line head in
       let spec := o_prefix && o_clean && (o_n =? nlen' sup + n) && beq o_head sup in
       let region : option N := None in
-      match scenario_expect k pp line ss 0 false CClose UOnEOF [] 0 0 UStay with
+      match scenario_expect k pp line ss 0 true false CClose UOnEOF [] 0 0 UStay with
       | Ok e =>
           let pre := firstn (length (e_up e) - length stand) (e_up e) in
           let same := Bool.eqb conn (e_conn e)
